@@ -116,6 +116,14 @@ func init() {
 				files["m1.js"] = "import assetURL from \"./asset.bin\";\np(\"asset\", typeof assetURL);\n" + files["m1.js"]
 				v += ",loader:.bin=file"
 			}
+			// a two-level chain of dynamic imports reached from the first entry point, and a function with a
+			// local whose name only shows up in the source map's "names"
+			files["dl1.js"] = "p(\"dl1:start\");\nexport const q = import(\"./dl2.js\");\nexport function zz(alpha) { const beta = alpha + 1; return beta * alpha; }\np(zz(2));\n"
+			files["dl2.js"] = "p(\"dl2:start\");\nexport const w = 1;\n"
+			files[g.Entries[0]] = files[g.Entries[0]] + "export const dlp = import(\"./dl1.js\");\n"
+			if gr.Chance(1, 3) && strings.Contains(v, "sourcemap=") {
+				v += ",nosc"
+			}
 			dirA := filepath.Join(workdir, fmt.Sprintf("c18-%d-a", i))
 			dirB := filepath.Join(workdir, fmt.Sprintf("c18-%d-a", i)) // same absolute location: paths must not matter anyway
 			A, errA := c18Build(dirA, files, g.Entries, v)
@@ -138,10 +146,15 @@ func init() {
 				for _, m := range g.Modules {
 					names = append(names, m.Path)
 				}
+				names = append(names, "dl1.js", "dl2.js", "dl2.js")
 				target := names[gr.Intn(len(names))]
 				edit := ""
 				v2 := v
-				switch gr.Intn(6) {
+				switch gr.Intn(7) {
+				case 6:
+					// rename a local to an anagram: with minified identifiers only "names" in the map changes
+					files2["dl1.js"] = strings.Replace(files2["dl1.js"], "alpha", "halpa", -1)
+					edit = "local rename in dl1.js"
 				case 0:
 					files2[target] = strings.Replace(files2[target], ":start\"", ":start-edited\"", 1)
 					edit = "string literal in " + target
